@@ -477,14 +477,25 @@ var (
 	PoolMacs         = []string{"02:42:ac:11:00:02", "02:42:ac:11:00:03", "ff:ff:ff:ff:ff:ff", "00:00:00:00:00:01"}
 	PoolPnames       = []string{"curl", "mosdns", "NetworkManager", "sixteen-byte-nam", "sixteen-byte-name-longer", "sixteen-byte-nam2", "c"}
 	PoolDscp         = []string{"0", "4", "0x4", "8", "63", "010"}
-	PoolDomFull      = []string{"example.com", "www.example.com", "a.b.example.com", "example.org", "ex-ample_1.com", "com"}
-	PoolDomSuffix    = []string{"example.com", ".example.com", "com", "b.example.com", "org", "ample.com", "1.com"}
+	PoolDomFull      = []string{"example.com", "www.example.com", "a.b.example.com", "example.org", "ex-ample_1.com", "com", "Up.Example.COM"} // the last one is outside the matcher's alphabet: skipped with a warning, matches nothing
+	PoolDomSuffix    = []string{"example.com", ".example.com", "com", "b.example.com", "org", "ample.com", "1.com", "B.Example.org"}
 	PoolDomKeyword   = []string{"example", "ple.c", "www", "-", "a.b", "google"}
 	PoolDomRegex     = []string{`^www\.`, `\.com$`, `^[a-z]+\.example\.(com|org)$`, `ex.*le`, `^$`, `[0-9]`}
 	PoolMarks        = []string{"0", "1", "0x800", "0xffffffff", "255", "010", "4294967295", "0x80000000"}
 )
 
 var allFuncs = []string{"domain", "dip", "sip", "dport", "sport", "l4proto", "ipversion", "mac", "pname", "dscp", "ip", "port"}
+
+// domOutOfAlphabet reports whether v has a byte outside the domain matcher's alphabet [0-9a-z-.^_].
+func domOutOfAlphabet(v string) bool {
+	for i := 0; i < len(v); i++ {
+		b := v[i]
+		if !(b >= '0' && b <= '9' || b >= 'a' && b <= 'z' || b == '-' || b == '.' || b == '^' || b == '_') {
+			return true
+		}
+	}
+	return false
+}
 
 func (g *RGen) pick(pool []string) string { return pool[g.R.IntN(len(pool))] }
 
@@ -520,6 +531,10 @@ func (g *RGen) genCond(fn string) RCond {
 				prev := c.Params[g.R.IntN(len(c.Params))]
 				if prev.Key != "geosite" && prev.Key != "ext" && prev.Key != "regex" {
 					keys := []string{"", "suffix", "full", "keyword", "contains", "domain"}
+					if domOutOfAlphabet(prev.Val) {
+						// only full/suffix values outside the matcher's alphabet are skipped with a warning; a keyword fails the build
+						keys = []string{"", "suffix", "full", "domain"}
+					}
 					c.Params = append(c.Params, RParam{keys[g.R.IntN(len(keys))], prev.Val})
 					continue
 				}
